@@ -24,6 +24,7 @@ def observe(ver, s, reverse=False):
 
 def check_pair(P, ver, rep, s, kind="?"):
     """rep, s: two spellings of the same assignment."""
+    P.remember({"ver": ver, "rep": rep, "spelling": s, "kind": kind})
     P.evaluations += 1
     ok, r = obs.call(observe, ver, rep)
     if not ok:
